@@ -1,4 +1,77 @@
-import AdfModel.Api
+/-
+  C09 — Memory safety for valid histories: the explicit bounds of the model.
+  Lean has no memory to corrupt.  The model makes every data-dependent index of the C code explicit (a checked
+  access whose failure is the model fault `oob`); the theorems say that at the sites guarded by an invariant of
+  well-formed volumes the check cannot fire.  Partial by nature: which C accesses need a check is the model's
+  reading of the code; the runtime side is observed by ASan / UBSan / valgrind on the explored histories.
+-/
+import AdfProofs.BitmapLemmas
+import AdfProofs.CacheLemmas
+import AdfProofs.ProgLemmas
+import AdfProps.C04
+import AdfProps.C07
+import AdfProps.C14
 namespace Adf.C09
-theorem C09_placeholder : True := trivial
+open Adf
+
+/-- in-memory bitmap of a mounted volume of `nblocks` blocks: allocated with one page per 4064 mapped blocks -/
+def BitmapSized (vm : VolMem) (nblocks : Nat) : Prop :=
+  vm.hasBitmap = true ∧ vm.bitmapTable.length = nBlock2bitmapSize (nblocks - 2)
+
+/-- the unchecked table index of adfIsBlockFree / adfSetBlockUsed / adfSetBlockFree is in range for every block
+    number inside the volume: the model's `oob` check at those sites cannot fire for 2 ≤ n < nblocks -/
+theorem C09_bitmap_index_in_table (vm : VolMem) (nblocks n : Nat) (h : BitmapSized vm nblocks)
+    (hn : 2 ≤ n) (hlt : n < nblocks) : bmInTable vm n = true := by
+  unfold bmInTable
+  have := (C14.C14_block_index_in_table nblocks n hn hlt).1
+  simp [h.1, hn, h.2, this]
+
+/-- `adfBitmapAllocate` establishes that shape (for the size adfMount / adfCreateBitmap compute) -/
+theorem C09_bitmapAllocate_sized (c : Cfg) (v nblocks : Nat) (s : St) :
+    BitmapSized ((run c (bitmapAllocate v (nBlock2bitmapSize (nblocks - 2))) s).2.mem.vol v) nblocks := by
+  unfold bitmapAllocate modVolMem
+  simp only [run_bind', run_getVolMem, run_setVolMem, BitmapSized]
+  simp only [Mem.vol, Mem.setVol]
+  have hlen : v < (s.mem.vols ++ List.replicate (v + 1 - s.mem.vols.length) default).length := by
+    simp; omega
+  simp [List.getD_eq_getElem?_getD, List.getElem?_set_self hlen]
+
+/-- setting / clearing bits never changes the shape of the table -/
+theorem C09_bmSetWord_keeps_shape (tbl : List Blk) (n : Nat) (f : Bool) :
+    (bmSetWord tbl n f).length = tbl.length := bmSetWord_length tbl n f
+
+/-- the allocator only ever returns blocks inside the table (so marking them used is in bounds) -/
+theorem C09_alloc_in_volume (tbl : List Blk) (root last nb : Nat) (hroot : 2 < root) (hr : root ≤ last) :
+    ∀ b ∈ scanFree tbl root last (last + 2) root nb, 2 ≤ b ∧ b < last + 1 := by
+  intro b hb
+  have := (C04.C04_alloc_contract tbl root last (last + 2) nb hroot hr (by omega)).1 b hb
+  omega
+
+/-- the directory-cache writer stays inside the 488-byte record area: when the caller's test
+    `offset + entryLen <= 488` holds (adfAddInCache), storing the record does not grow the area -/
+theorem C09_put_stays_in_area (ra : Bytes) (ptr : Nat) (e : CacheEntry) (hra : ra.length = 488) (h : C07.RecOK e)
+    (hfit : ptr + cacheEntryLen e ≤ 488) : (putCacheEntry ra ptr e).length = 488 := by
+  have hY := C07.tailBytes_length e h
+  have hlen := C07.C07_len_even e
+  have h1 : (putAt ra ptr (be32 e.header ++ be32 e.size ++ be32 e.protect)).length = 488 := by
+    rw [putAt_length _ _ _ (by simp [be32]; omega)]; exact hra
+  have h2 : (putAt (putAt ra ptr (be32 e.header ++ be32 e.size ++ be32 e.protect)) (ptr + 16) (C07.tailBytes e)).length = 488 := by
+    rw [putAt_length _ _ _ (by rw [hY, h1]; omega)]; exact h1
+  show (if (25 + e.nLen + e.cLen) % 2 = 0 then _ else _ : Bytes).length = 488
+  split
+  · exact h2
+  · rename_i hodd
+    have : cacheEntryLen e = 25 + e.nLen + e.cLen + 1 := by unfold cacheEntryLen; simp only; rw [if_neg hodd]
+    have h3 := putAt_length (putAt (putAt ra ptr (be32 e.header ++ be32 e.size ++ be32 e.protect)) (ptr + 16) (C07.tailBytes e))
+      (ptr + (25 + e.nLen + e.cLen)) [0] (by rw [h2]; simp; omega)
+    rw [h2] at h3; exact h3
+
+/-- hash slots index the 72-entry table -/
+theorem C09_hash_slot_in_table (intl : Bool) (name : Bytes) : hashName intl name < 72 := by
+  unfold hashName HT_SIZE; exact Nat.mod_lt _ (by decide)
+
+/-- slots of the block lists: `dataBlocks[MAX_DATABLK-1-i]` for i < 72 is inside the 72-entry array -/
+theorem C09_datablock_slot (i : Nat) (h : i < 72) : F_table ≤ F_table + 71 - i ∧ F_table + 71 - i < F_table + 72 := by
+  unfold F_table; omega
+
 end Adf.C09
